@@ -1355,6 +1355,13 @@ def run_C13(tier, rng, stats):
                 pairs.append((case(ev, 'eval', None, o), case(ev, 'eval', None, '+' * (L - len(o)) + o), 'prefix + up to the length bound'))
                 k = (L - len(o)) // 2
                 pairs.append((case(ev, 'eval', None, o), case(ev, 'eval', None, '(' * k + o + ')' * k), 'redundant brackets up to the length bound'))
+    # very long runs of white space (the stripped input is short; raw lengths cross 2^12, 2^15, 2^16): size limits on the raw argument
+    for ev in EVS:
+        for n in (300, 4090, 33000, 66000, 70000):
+            for wch in (0x20, 0x3000):
+                pad = chr(wch) * (n // (1 if wch < 0x80 else 3))
+                pairs.append((case(ev, 'eval', None, '2+2'), case(ev, 'eval', None, '2' + pad + '+2'), 'long white-space run (%d bytes)' % n))
+                pairs.append((case(ev, 'eval', None, '2+'), case(ev, 'eval', None, pad + '2+'), 'long white-space run (%d bytes)' % n))
     # every white-space character, every position of a fixed expression
     for ev in EVS:
         base = {'f64': 'sin(1.5)+2', 'i64': 'gcd(12,18)+2', 'decimal': 'abs(1.5)+2', 'complex': 'sin(1.5)+2i', 'number': 'sin(1.5)+2'}[ev]
@@ -1728,6 +1735,25 @@ def run_C11(tier, rng, stats):
             res['violations'].insert(0, {'kind': 'aggregate-value', 'cases': [list(c)], 'observed': x, 'expected': str(want),
                                          'why': '%s of %s should be %s, got %s' % (f, L, want, got)})
     res['levels']['value-vs-multiset-reference'] = (n, nd)
+    # very long flat lists (33 000 and 70 000 arguments: more than 2^16 tokens / bytes; no nesting, so the native stack is not the
+    # subject): implementation only, against the obvious value (the extracted model is not run on inputs of this size)
+    hn = hd = 0
+    hcases = []
+    for ev in ['f64', 'i64', 'decimal', 'number']:
+        for k in (33000, 70000):
+            for f, args, want in [('max', ['3'] * k + ['7'], 7), ('min', ['3'] * k + ['2'], 2), ('avg', ['4'] * k, 4), ('med', ['5'] * k + ['1', '9'], 5)] + \
+                                 ([('gcd', ['6'] * k + ['9'], 3), ('lcm', ['2'] * k + ['3'], 6)] if ev == 'i64' else []):
+                hcases.append((case(ev, 'eval', None, f + '(' + ','.join(args) + ')'), want, f, len(args)))
+    for prof in ('debug', 'release'):
+        outs_h = vlib.run_impl(['\t'.join(c) for c, _, _, _ in hcases], prof, budget=10**8)
+        for (c, want, f, k), x in zip(hcases, outs_h):
+            hn += 1
+            got = value_of_out(c[0], vlib.strip_ticks(x))
+            if got is None or got != Fraction(want):
+                hd += 1
+                res['violations'].insert(0, {'kind': 'aggregate-value', 'cases': [list(c)], 'observed': x[:60], 'expected': str(want), 'profile': prof,
+                                             'why': '%s of %d arguments in eval_%s (%s build): expected %s, got %s' % (f, k, c[0], prof, want, vlib.strip_ticks(x)[:40])})
+    res['levels']['huge-flat-lists-vs-obvious-value'] = (hn, hd)
     return res
 
 PROPS['C11'] = {}
